@@ -5,29 +5,7 @@ From Regal Require Export Model.Framework Model.LintErr Check.C07Check.
 From Coq Require Import ZArith.
 Import ListNotations.
 
-Fixpoint jv_eqb (a b : jv) {struct a} : bool :=
-  let fix list_eq (l1 l2 : list jv) {struct l1} : bool :=
-    match l1, l2 with
-    | [], [] => true
-    | x :: l1', y :: l2' => jv_eqb x y && list_eq l1' l2'
-    | _, _ => false
-    end in
-  let fix kv_eq (l1 l2 : list (str * jv)) {struct l1} : bool :=
-    match l1, l2 with
-    | [], [] => true
-    | (k1, x) :: l1', (k2, y) :: l2' => str_eqb k1 k2 && jv_eqb x y && kv_eq l1' l2'
-    | _, _ => false
-    end in
-  match a, b with
-  | JNull, JNull => true
-  | JBool x, JBool y => Bool.eqb x y
-  | JNum x, JNum y => Z.eqb x y
-  | JStr x, JStr y => str_eqb x y
-  | JArr x, JArr y => list_eq x y
-  | JSet x, JSet y => list_eq x y
-  | JObj x, JObj y => kv_eq x y
-  | _, _ => false
-  end.
+(* jv_eqb: Model/Framework.v *)
 
 Inductive cls := KUndef | KVal | KConflict.
 Definition cls_eqb (a b : cls) : bool :=
@@ -97,6 +75,8 @@ Inductive c03case :=
 | FID (comments : list (Z * option (list str))) (got : option (list (Z * list str)))   (* None = conflict error *)
 | FToSet (x : jv) (got : cls) (is_set_got : bool)
 | FToArray (x : jv) (got : cls) (is_array_got : bool)
+| FImp (imports : list import) (got_ids : option (list jv)) (got_res : option (list (jv * list str)))   (* None = conflict error *)
+| FDecl (rules : list rule_sig) (got : option (list (str * nat)))                                       (* None = conflict error *)
 | FLoc (c : c07case)
 | FProp (singles : list bool) (got_ok : bool).   (* per-file outcomes observed alone; outcome of the batch *)
 
@@ -112,6 +92,38 @@ Definition prop_model (singles : list bool) : bool :=
   | Ok _ => true
   | Err _ => false
   end.
+
+(* ast/imports.rego, evaluated as OPA does: a conflict inside a call of _imported_identifier aborts the rule that
+   calls it (imported_identifiers calls it for eligible imports, resolved_imports for ALL imports once there is an
+   identifier at all) *)
+Definition ii_ok (i : import) : bool :=
+  match classify jv_eqb (imported_identifier i) with KConflict => false | _ => true end.
+Definition ids_model (imports : list import) : option (list jv) :=
+  if forallb (fun i => negb (eligible i) || ii_ok i) imports then Some (imported_identifiers imports) else None.
+Definition res_entry_eqb (a b : jv * list str) : bool :=
+  jv_eqb (fst a) (fst b) && list_eqb str_eqb (snd a) (snd b).
+Definition res_keyed_ok (es : list (jv * list str)) : bool :=
+  forallb (fun a => forallb (fun b => negb (jv_eqb (fst a) (fst b)) || res_entry_eqb a b) es) es.
+Definition res_model (imports : list import) : option (list (jv * list str)) :=
+  match ids_model imports with
+  | None => None
+  | Some [] => Some []
+  | Some _ => if forallb ii_ok imports && res_keyed_ok (resolved_imports imports)
+              then Some (resolved_imports imports) else None
+  end.
+Definition same_set {A} (eqb : A -> A -> bool) (a b : list A) : bool :=
+  forallb (fun x => existsb (eqb x) b) a && forallb (fun x => existsb (eqb x) a) b.
+Definition opt_same_set {A} (eqb : A -> A -> bool) (a b : option (list A)) : bool :=
+  match a, b with
+  | None, None => true
+  | Some x, Some y => same_set eqb x y
+  | _, _ => false
+  end.
+Definition decl_entry_eqb (a b : str * nat) : bool := str_eqb (fst a) (fst b) && Nat.eqb (snd a) (snd b).
+Definition decl_model (rules : list rule_sig) : option (list (str * nat)) :=
+  let es := function_decls rules in
+  if forallb (fun a => forallb (fun b => negb (str_eqb (fst a) (fst b)) || decl_entry_eqb a b) es) es
+  then Some es else None.
 
 Definition fcase_agrees (c : c03case) : bool :=
   match c with
@@ -140,6 +152,9 @@ Definition fcase_agrees (c : c03case) : bool :=
       let outs := to_array members x in
       cls_eqb (classify jv_eqb outs) got &&
       match outs with v :: _ => Bool.eqb (is_array v) flag | [] => true end
+  | FImp imports got_ids got_res =>
+      opt_same_set jv_eqb (ids_model imports) got_ids && opt_same_set res_entry_eqb (res_model imports) got_res
+  | FDecl rules got => opt_same_set decl_entry_eqb (decl_model rules) got
   | FLoc c => case_agrees c
   | FProp singles got_ok => Bool.eqb (prop_model singles) got_ok
   end.
@@ -152,6 +167,8 @@ Definition fcase_in_premise (c : c03case) : bool :=
   | FID comments _ =>
       let rows := map fst comments in
       forallb (fun r => Nat.leb (length (filter (Z.eqb r) rows)) 1) rows
+  | FImp imports _ _ =>
+      forallb (fun i => negb (match imp_alias i with Some (JBool false) => true | _ => false end)) imports
   | _ => true
   end.
 
@@ -161,6 +178,8 @@ Definition fcase_conflict (c : c03case) : bool :=
   | FRR _ RConflict => true
   | FFail _ _ KConflict | FToSet _ KConflict _ | FToArray _ KConflict _ => true
   | FID _ None => true
+  | FImp _ None _ | FImp _ _ None => true
+  | FDecl _ None => true
   | FLoc (CTLO _ _ OError) | FLoc (CLoc _ _ _ OError) | FLoc (CRLB _ _ _ _ OError) | FLoc (CRFR _ _ _ OError)
   | FLoc (CInf _ _ _ OError) | FLoc (CCut _ _ _ _ _ OError) | FLoc (CL2T _ _ OError) => true
   | _ => false
